@@ -785,6 +785,18 @@ impl Plist {
     }
 }
 
+/*
+ * Verification hook: expose the parsed entries in order.  Only compiled when
+ * built with `--cfg pkgsrc_verif`.
+ */
+#[cfg(pkgsrc_verif)]
+impl Plist {
+    /// Return all parsed entries in order (verification builds only).
+    pub fn verif_entries(&self) -> &[PlistEntry] {
+        &self.entries
+    }
+}
+
 #[cfg(test)]
 mod tests {
     use super::*;
